@@ -2,7 +2,7 @@
 from xvlib import *
 from props.queue_common import *
 
-PROGS = [';push1,push2;pop,pop', 'push1;push2,pop;pop,push3', ';push1,pop;push2,pop', 'push1,push2;pop,pop;pop,push3',
+PROGS = [';push1,push2;pop,pop', ';push1,push2,push3;pop', ';pop,pop;push1,push2,push3', 'push1;push2,pop;pop,push3', ';push1,pop;push2,pop', 'push1,push2;pop,pop;pop,push3',
          ';push1,push2,push3;pop,pop,pop', ';push1,push2;push3,pop;pop,pop', 'push1;opop,push2;opop,opop', ';push1,push2;push3,push4;pop,pop']
 QCFG = ['ms', 'ram10', 'ram21', 'ram31', 'ram40', 'nik10', 'nik21', 'nik41']
 
@@ -23,7 +23,8 @@ def run(ctx):
                 if q and i >= 5 and (k + ctx.seed) % 2 != 0:
                     continue
                 jobs.append('%s/%s/I;%s' % (qc, r, p))
-    run_queues(ctx, jobs, pb=2 if q else 3, max_exec=250 if q else 20000)
+    # budgets large enough that the iteratively deepened search completes preemption bound 1 for every program
+    run_queues(ctx, jobs, pb=2 if q else 3, max_exec=400 if q else 20000, per_driver={'queue_nik': 1500, 'queue_ram': 700} if q else None)
     if not q:
         run_queues(ctx, jobs, pb=5, max_exec=0, mode='random', runs=600, tagx='r')
     for r in ctx.tv[:3]:
